@@ -540,7 +540,7 @@ func run(c *vf.Ctx) {
 		r.sweepGeneric(2, bounds{piAlph: quarter, trAlph: quarter, emAlph: []float64{1, 0.5, 0}, nmax: 4, postN: 2, kinds: structured, consHow: "partitions", allRestr: true}, "float64", 0)
 		r.sweepGeneric(2, bounds{piAlph: half, trAlph: half, emAlph: []float64{1, 0.5}, nmax: 5, postN: 3, kinds: structured, consHow: "partitions", allRestr: true, idConstMaps: true}, "real64", 1)
 		r.sweepGeneric(3, bounds{piAlph: half, trAlph: half, emAlph: []float64{1, 0}, nmax: 4, postN: 0, kinds: structured, allRestr: true, idConstMaps: true, noDeadRows: true}, "float64", 0)
-		r.sweepGeneric(3, bounds{piList: [][]float64{{0.5, 0.25, 0.25}, {0, 0.5, 0.5}}, trAlph: fullSupport, emAlph: []float64{1, 0.5, 0}, nmax: 4, postN: 2, kinds: onlyC, allRestr: true, idMap: true, noDeadRows: true}, "float64", 1)
+		r.sweepGeneric(3, bounds{piList: [][]float64{{0.5, 0.25, 0.25}, {0, 0.5, 0.5}}, trAlph: fullSupport, emAlph: []float64{1, 0}, nmax: 4, postN: 2, kinds: onlyC, allRestr: true, idMap: true, noDeadRows: true}, "float64", 1)
 		r.sweepGeneric(3, bounds{piList: [][]float64{{0.5, 0.25, 0.25}, {0, 0.5, 0.5}}, trAlph: lowQuarter, emAlph: []float64{1, 0}, nmax: 4, postN: 2, kinds: onlyH, allRestr: true, idMap: true, noDeadRows: true}, "float64", 1)
 	} else {
 		r.sweepGeneric(1, bounds{piAlph: quarter, trAlph: quarter, emAlph: []float64{1, 0.5, 0}, nmax: 4, postN: 3, kinds: structured, allRestr: true}, "float64", 0)
@@ -726,7 +726,7 @@ func main() {
 		ID:    "C15",
 		Level: "exploration",
 		Rule: "exhaustive product: HMMs with m in {1,2,3} states, pi and every transition row from all stochastic vectors over a dyadic alphabet (zeros included), all m^m state->emission-class maps, start and final restriction each in {none,{0},{m-1},{0,1}}, all emission tables over a small alphabet (zero emissions included), all observation sequences up to the length bound (generic route: one representative per symbol relabelling), all sequences of non-empty state subsets for Posterior; mixtures: all weight vectors, component likelihood tables and component subsets. " +
-			"Structured transition matrices: constrained HMMs (no constraint and every single equality constraint between two cells of the matrix; for m=2 every partition of the four cells into tie groups) and hierarchical HMMs (every tree over contiguous state ranges without unary nodes), built through generic.NewChmmTransitionMatrix / NewHhmmTransitionMatrix + NewHmm and end to end through vectorDistribution / matrixDistribution NewConstrainedHmm / NewHierarchicalHmm; their matrices range over ALL stochastic matrices of the row alphabet that satisfy the ties, start and final restriction each over none and every non-empty subset of the states (m=3 quick: (any start, no final), (no start, any final), (start = final); thorough: full product), sequences of length 1..4, identity and constant state map. On every model the configuration calls are observed too (model_level_checks): base transition matrix and pi read back after construction equal the supplied ones; SetStartStates/SetFinalStates leave the base transition matrix (public field and GetParameters) bitwise unchanged, SetFinalStates leaves pi unchanged; the last-transition matrix has no NaN, no mass on non-final states and unit row sums. " +
+			"Structured transition matrices: constrained HMMs (no constraint and every single equality constraint between two cells of the matrix; for m=2 every partition of the four cells into tie groups) and hierarchical HMMs (every tree over contiguous state ranges without unary nodes), built through generic.NewChmmTransitionMatrix / NewHhmmTransitionMatrix + NewHmm and end to end through vectorDistribution / matrixDistribution NewConstrainedHmm / NewHierarchicalHmm; their matrices range over ALL stochastic matrices of the row alphabet that satisfy the ties (row alphabets: dyadic quarters for m<=2; for m=3 {0,1/2}, {0,1/2,1}, {0,1/4,1/2} and the full-support rows over {1/4,1/2} - only with unequal non-zero entries does a tied last transition differ from a row-wise renormalised one), start and final restriction each over none and every non-empty subset of the states (full product for m<=2 and in the thorough tier; m=3 quick: (any start, no final), (no start, any final), (start = final), on the full-support lattice no start restriction), sequences of length 1..4 (end-to-end routes 1..3, matrix route m=3 1..2), identity state map (m<=2 also the constant map). On every model the configuration calls are observed too (model_level_checks): base transition matrix and pi read back after construction equal the supplied ones; SetStartStates/SetFinalStates leave the base transition matrix (public field and GetParameters) bitwise unchanged, SetFinalStates leaves pi unchanged; the last-transition matrix has no NaN, no mass on non-final states and unit row sums. " +
 			"Every case runs the real library and is compared with a brute-force sum over all m^n hidden paths. A case is counted non-trivial when the data has positive probability and at least two hidden paths have positive probability (so sums/maxima really range over several paths); cases are distinct by construction of the product",
 		Assume: []string{
 			"model semantics as defined by the library's documented construction: pi restricted to the start states and renormalised; the LAST transition (only) uses the transition matrix restricted to the final-state columns with rows renormalised; models where the start restriction removes all mass of pi, or where a row has no mass on the final states (the library then substitutes a self-loop), are skipped as inadmissible and counted",
